@@ -34,7 +34,7 @@ def absent_keys(rng, klen, keys):
 def cfg_line(rng, **over):
     c = dict(key=rng.choice(KEYLENS), dup=rng.choice([0, 1, 1]), group=rng.choice([2, 3, 8]),
              bloom=rng.choice(['off', 'off', '100,2,1000', '50,3,127', '10,1,64']),
-             rt=rng.choice(['mt', 'mt', 'ct']))
+             rt=rng.choice(['mt', 'mt', 'ct']), validate=rng.choice([0, 0, 1]))
     c.update(over)
     return c, 'cfg ' + ' '.join(f'{k}={v}' for k, v in c.items())
 
@@ -254,10 +254,11 @@ def bytes_scenario(rng, size='quick', **over):
         if rng.random() < 0.2:
             lines += [f'd {k} {rng.choice(TS_POOL)} {rng.choice(["-", "m:01"])} {rng.choice([0, 1])}', 'states']
         if rng.random() < 0.25:
-            lines += [rng.choice(['close_active', 'force always', 'settle', 'restart']), 'states']
+            lines += [rng.choice(['close_active', 'force always', 'settle', 'restart', 'dmgsweep kinds']), 'states']
         for kk in keys:
             lines += [f'r {kk}', f'ram {kk}']
         lines.append('blobsum')
+    lines += ['dmgsweep kinds', 'states']     # every index removed / invalidated: regeneration of the unaltered blobs
     lines += [f'flipsweep {12 if size == "quick" else 60} {rng.randrange(1, 10**6)}', 'states']
     for kk in keys:
         lines += [f'r {kk}', f'ram {kk}']
@@ -297,7 +298,7 @@ def sync_scenario(rng, size='quick', **over):
 def harm_scenario(rng, size='quick', **over):
     """C07: histories with restarts, quarantines (damaged blob files between sessions) and index damage; byte
     snapshots of every blob file after every step; traces; queries at quiescent points"""
-    c, line = cfg_line(rng, dup=1, **over)
+    c, line = cfg_line(rng, dup=1, ignore=rng.choice([0, 0, 1]), **over)
     klen = c['key']
     keys = mk_keys(rng, klen, 3)
     absent = absent_keys(rng, klen, keys)
@@ -308,6 +309,17 @@ def harm_scenario(rng, size='quick', **over):
     damaged = False
     for _ in range(n):
         x = rng.random()
+        if x < 0.08:
+            # injected I/O failure on a blob write (ENOSPC / short write), then further appends to the same blob
+            if not damaged:
+                lines.append('nomodel')
+                damaged = True
+            lines.append(f'fault write {rng.choice([0, 0, 1])} .blob {rng.choice(["fail:28", "short:7", "short:60", "short:300"])}')
+            for _ in range(3):
+                lines += [f'w {rng.choice(keys)} {rng.choice(TS_POOL)} {rng.choice(METAS_W)} {rng.choice([10, 300, 5000])} {seed % 250 + 1}', 'states', 'snap']
+                seed += 1
+            lines += ['clearfaults', 'trace']
+            continue
         if x < 0.45:
             lines.append(f'w {rng.choice(keys)} {rng.choice(TS_POOL)} {rng.choice(METAS_W)} {rng.choice([0, 10, 300, 5000])} {seed % 250 + 1}')
             seed += 1
@@ -329,9 +341,12 @@ def harm_scenario(rng, size='quick', **over):
             kind = rng.choice(['magic', 'hflip:0', 'hflip:1', f'cut:{rng.choice([1, 5, 30])}', 'dflip:0'])
             lines.append(f'restart bdmg={max(bid, 0)}:{kind}')
         lines += ['states', 'snap']
+        if lines[-3].startswith(('restart', 'force', 'create_active')):
+            lines.append('trace')
         if rng.random() < 0.3:
             lines += ['settle', 'trace'] + queries('c01', keys, absent[:1]) + [f'ram {keys[0]}', 'counts', 'trace q']
-    lines += ['restart', 'states', 'snap', 'force always', 'states', 'snap', 'trace']
+    lines += ['restart', 'states', 'snap', 'trace', 'force always', 'states', 'snap', 'trace',
+              f'w {keys[0]} 9 - 10 {seed % 250 + 1}', 'states', 'snap', 'trace']
     return lines
 
 
@@ -438,9 +453,22 @@ def filter_scenario(rng, size='quick', **over):
     lines += [f'bloom probe {bytes(rng.randrange(256) for _ in range(5)).hex()}', 'bloom offload', f'bloom has {added[0]}',
               f'bloom probe {added[0]}', 'bloom reload', f'bloom has {added[0]}', 'bloom raw']
     # part 2: storage level
-    keys = mk_keys(rng, klen, rng.randint(3, 6))
+    keys = mk_keys(rng, klen, rng.randint(4, 6))
     absent = absent_keys(rng, klen, keys)
     seed = 1
+    if rng.random() < 0.4:
+        # range shape: the first blob of a group holds the middle keys, the next one the extremes
+        mid = keys[1:-1]
+        for kk in mid:
+            lines += [f'w {kk} {rng.choice(TS_POOL)} - 3 {seed}', 'states']
+            seed += 1
+        lines += [rng.choice(['close_active', 'force always']), 'states']
+        for kk in (keys[0], keys[-1]):
+            lines += [f'w {kk} {rng.choice(TS_POOL)} - 3 {seed}', 'states']
+            seed += 1
+        lines += [rng.choice(['close_active', 'force always']), 'states']
+        for kk in keys + absent[:1]:
+            lines += [f'cf {kk}', f'cfs {kk}', f'gfc {kk}', f'c {kk}']
     n = rng.randint(8, 20) if size == 'quick' else rng.randint(15, 60)
     for _ in range(n):
         x = rng.random()
@@ -459,7 +487,7 @@ def filter_scenario(rng, size='quick', **over):
             lines.append(rng.choice(['restart', 'restart lazy']))
         lines.append('states')
         for kk in keys + absent[:1]:
-            lines += [f'cf {kk}', f'cfs {kk}', f'c {kk}']
+            lines += [f'cf {kk}', f'cfs {kk}', f'gfc {kk}', f'c {kk}']
     return lines
 
 
